@@ -33,7 +33,7 @@ RULE = ('images generated per format from trait vectors (each of the 64 qcow2 in
         'LUKS versions, truncation at every structure boundary) x 2-3 chunk schedules, fed directly, through '
         'InspectWrapper and through cli.main (in-process + real subprocess sample); injected exceptions in every '
         'registered check. non-trivial = MUST-REJECT or MUST-ACCEPT case; distinct by (spec, path, schedule)')
-REQUIRED_CLAUSES = ['must-reject', 'must-accept', 'responsible-check-named', 'fault-in-check-is-failure',
+REQUIRED_CLAUSES = ['interleaved-instances', 'must-reject', 'must-accept', 'responsible-check-named', 'fault-in-check-is-failure',
                     'fault-inside-check-code-is-failure',
                     'cli-exit-status', 'cli-subprocess', 'mbr-family', 'only-documented-exceptions',
                     'no-safety-check-declared']
@@ -383,6 +383,39 @@ def eval_linefault(ctx, case):
         ctx.fail('fault-not-sticky', case, {'fired': _LP['fired']})
 
 
+def eval_interleaved(ctx, case):
+    """Two inspectors of the same class alive at once, fed alternately: each verdict must be the one its own bytes
+    deserve (nothing may leak from one instance into the other)."""
+    F = sl.fi()
+    da, name, va, ra, _ta = reference(case['spec_a'])
+    db, nameb, vb, rb, _tb = reference(case['spec_b'])
+    cls = F.ALL_FORMATS[name]
+    a, b = cls(), F.ALL_FORMATS[nameb]()
+    size = case['chunk']
+    raised = {}
+    for off in range(0, max(len(da), len(db)), size):
+        order = ((a, da, 'a'), (b, db, 'b')) if (off // size) % 2 == 0 or not case.get('swap') else ((b, db, 'b'), (a, da, 'a'))
+        for insp, data, tag in order:
+            if off < len(data):
+                try:
+                    insp.eat_chunk(data[off:off + size])
+                except BaseException as e:  # noqa
+                    raised.setdefault(tag, type(e).__name__)
+    for insp in (a, b):
+        try:
+            insp.finish()
+        except BaseException:  # noqa
+            pass
+    ctx.case(('interleaved', repr(case['spec_a']), repr(case['spec_b']), size, bool(case.get('swap'))),
+             nontrivial=va != 'dontcare' or vb != 'dontcare')
+    ctx.clause('interleaved-instances')
+    # safety_check of the first one is asked last, after the second one has finished its header
+    ob = 'raised:' + raised['b'] if 'b' in raised else sl.safety_outcome(b)
+    oa = 'raised:' + raised['a'] if 'a' in raised else sl.safety_outcome(a)
+    judge(ctx, dict(case, which='a'), 'interleaved', va, ra, oa)
+    judge(ctx, dict(case, which='b'), 'interleaved', vb, rb, ob)
+
+
 def eval_nocheck(ctx, case):
     """An inspector that declares no safety check must be impossible to construct."""
     F = sl.fi()
@@ -428,6 +461,8 @@ def evaluate(ctx, case):
         eval_nocheck(ctx, case)
     elif k == 'linefault':
         eval_linefault(ctx, case)
+    elif k == 'interleaved':
+        eval_interleaved(ctx, case)
     elif k == 'mbr':
         eval_mbr(ctx, case)
 
@@ -635,6 +670,16 @@ def run(ctx):
             if mine():
                 eval_linefault(ctx, {'kind': 'linefault', 'spec': spec, 'k': k})
     ctx.exhaustive['every line executed inside the real check functions of the clean qcow2/vmdk/gpt/mbr/luks images'] = True
+    # ---- two live inspectors of one class, fed alternately (unsafe + clean, clean + unsafe, unsafe + unsafe)
+    rng_i = ctx.rng('interleaved')
+    pools = {'qcow2': qcow_specs(rng_i, 150), 'vmdk': vmdk_specs(rng_i, 150), 'other': other_specs(rng_i, 300)}
+    for rep in range(ctx.pick(600, 12000)):
+        fam = rng_i.choice(['qcow2', 'qcow2', 'vmdk', 'other'])
+        sa = rng_i.choice(pools[fam])
+        sb = rng_i.choice([s_ for s_ in pools[fam] if s_['gen'] == sa['gen']] or [sa])
+        if mine():
+            eval_interleaved(ctx, {'kind': 'interleaved', 'spec_a': sa, 'spec_b': sb,
+                                   'chunk': rng_i.choice([64, 512, 4096, 1 << 20]), 'swap': rng_i.random() < 0.5})
     # ---- trait vectors
     rng = ctx.rng('traits')
     specs = []
